@@ -11,6 +11,7 @@ CONSTANTS
   WakeAt = 2
   IgnoreUnknownIdx = TRUE
   UnlinkOnDeregister = FALSE
+  ResumeClearsBackoff = TRUE
   IncBeforeSend = FALSE
   NoClearOnLimit = TRUE
   ResumeSkipsAcceptAll = FALSE
